@@ -237,7 +237,16 @@ static Plan plan_C04(Rng& r, const std::string&) {
 			TA A = gen_ta(r, pool, o);
 			int a = g.load(A, 0);
 			int k = r.range(1, 3);
-			for (int i = 0; i < k; ++i) g.push(mk(c, "et_sim", {a, long(r.below(2)), long(r.below(100000)), long(r.below(2))}));
+			for (int i = 0; i < k; ++i) g.push(mk(c, "et_sim", {a, long(r.below(2)), long(r.below(100000)), long(r.below(4))}));
+			if (r.chance(1, 4)) {
+				// the same OBJECT asked again after a near relative of A (same states, a rule or two tweaked) was assigned over it
+				TA B = derive_ta(r, pool, A, 3); if (r.chance(1, 2)) B = derive_ta(r, pool, B, r.chance(1, 2) ? 3 : 2);
+				long d = long(r.below(2));
+				g.push(mk(c, "et_sim", {a, d, long(r.below(100000)), 2 + long(r.below(2))}));
+				int b = g.load(B, 0);
+				g.push(mk(c, "et_assign", {a, b}));
+				g.push(mk(c, "et_sim", {a, d, long(r.below(100000)), 2 + long(r.below(2))}));
+			}
 			if (r.chance(1, 5)) g.push(cli_step(r, c, 0, 7, mdl::to_lit(A), ""));      // vata [-s] -o dir=down|up sim
 			if (r.chance(1, 4)) g.push(mk(c, "churn", {long(r.below(100000)), long(r.range(4, 30))}));
 		}
@@ -264,6 +273,18 @@ static Plan plan_C05(Rng& r, const std::string&) {
 			if (r.chance(1, 3)) g.push(mk(c, "et_copy", {a}), 0);
 			g.push(mk(c, "et_reduce", {a}), 0);
 			if (r.chance(1, 6) && A.states().size() <= 8) g.push(cli_step(r, c, 0, 6, mdl::to_lit(A), ""));      // vata red
+			if (r.chance(1, 3)) {
+				// the same OBJECT reduced again after it got another value: a near relative of A (same states, one or two rules
+				// tweaked, so that other states are simulation-equivalent) is assigned or moved over it, or it is modified in place
+				TA B = derive_ta(r, pool, A, 3); if (r.chance(1, 2)) B = derive_ta(r, pool, B, r.chance(1, 2) ? 3 : 2);
+				int b = g.load(B, 0);
+				switch (r.below(4)) {
+					case 0: case 1: g.push(mk(c, "et_assign", {a, b})); break;
+					case 2: g.push(mk(c, "et_move_assign", {a, b})); g.removed(b); if (b < a) --a; break;
+					default: g.mutate_ops(1, pool); break;
+				}
+				g.push(mk(c, "et_reduce", {a}), 0);
+			}
 			if (r.chance(1, 3)) g.mutate_ops(1, pool);
 		}
 		progs.push_back(g.out);
@@ -293,6 +314,15 @@ static Plan plan_C06(Rng& r, const std::string&) {
 			if (r.chance(1, 2)) { TAOpts o2; o2.max_states = 2; o2.max_rules = 2; g.load(gen_ta(r, pool, o2), al); }
 			g.push(mk(c, "et_complement", {a}), al == 0 ? 0 : -1);
 			if (r.chance(1, 6)) g.push(cli_step(r, c, 0, 5, mdl::to_lit(A), ""));      // vata cmpl (over the default alphabet)
+			if (r.chance(1, 3)) {
+				// short-lived private alphabets: each step creates an alphabet, loads an automaton over it, registers further symbols,
+				// complements and lets everything go; the next alphabet (other symbols, other ranks, often as many) may be handed the same address
+				int kk = r.range(2, 5);
+				for (int i = 0; i < kk; ++i) {
+					Pool lp = make_pool(r, 4, 2); TAOpts o3; o3.max_states = r.range(1, 3); o3.max_rules = r.range(1, 5);
+					g.push(mk(c, "et_complement_local", {long(r.below(4)), long(r.below(256))}, mdl::to_lit(gen_ta(r, lp, o3))));
+				}
+			}
 			if (r.chance(1, 4)) g.push(mk(c, "churn", {long(r.below(100000)), long(r.range(4, 30))}));
 		}
 		progs.push_back(g.out);
